@@ -2,7 +2,8 @@
 import random
 
 NATIVE = ["relu", "relu6", "leaky", "shrink"]
-PATCHED = ["ELU", "Tanh", "Sigmoid", "GELU", "SiLU", "Softplus", "Mish", "SELU", "CELU", "LogSigmoid"]
+PATCHED = ["ELU", "Tanh", "Sigmoid", "GELU", "SiLU", "Softplus", "Mish", "SELU", "CELU", "LogSigmoid", "Custom"]
+# "Custom": a user-defined activation class registered through additional_nonlinear_ops (rule = the library's _nonlinear)
 NATIVE_CLS = {"relu": ["ReLU"], "relu6": ["ReLU6"], "leaky": ["LeakyReLU", "PReLU", "RReLU"], "shrink": ["Softshrink"]}
 
 
